@@ -1,9 +1,9 @@
 #!/usr/bin/env python3
-"""import_seed.py <seed dir> <caught|missed> "<how the check reported it>"  -- copies a confirmed seeded change into /verif/seeded/"""
+"""import_seed.py <seed dir> <caught|missed> "<how the check reported it>" [dest name]  -- copies a confirmed seeded change into /verif/seeded/"""
 import json, shutil, sys
 from pathlib import Path
 src = Path(sys.argv[1]); verdict = sys.argv[2]; how = sys.argv[3]
-dst = Path("/verif/seeded") / src.name
+dst = Path("/verif/seeded") / (sys.argv[4] if len(sys.argv) > 4 else src.name)
 dst.mkdir(parents=True, exist_ok=True)
 for f in ("patch.diff", "demo.py"):
     shutil.copy(src / f, dst / f)
